@@ -347,36 +347,39 @@ def rooted_returning_methods(model):
     return out
 
 
-def stateless_parsing(ctx, report):
+def stateless_parsing(ctx, report, RULE='C19.R5', modules=None, allow_memo=True,
+                      title='no function outside the registration API writes class level state (work independent of earlier parses)'):
     """a parse must cost the same whatever was parsed before: outside the registration API no function of the package
     assigns to class level state or mutates a container it reached through a class attribute (directly or through a
     local alias). Reviewed exception: the lazily created, empty per-class registry of _get_registered_variants"""
     from .c14 import class_state_stores
     model = ctx.model
-    report.rule('C19.R5', 'no function outside the registration API writes class level state (work independent of earlier parses)')
+    report.rule(RULE, title)
     rooted_returning_methods(model)
     for f in model.functions():
         if f.module.external or f.name in REGISTRATION_API:
             continue
-        report.count('C19.R5')
+        if modules is not None and not any(f.module.path.endswith(m) for m in modules):
+            continue
+        report.count(RULE)
         aliases = set()
         for n in ast.walk(f.node):
             if isinstance(n, ast.Assign) and len(n.targets) == 1 and isinstance(n.targets[0], ast.Name) and \
                     isinstance(n.value, (ast.Attribute, ast.Subscript, ast.Call)) and class_rooted(n.value, f, model, ()):
                 # a method object or a scalar read is not a container alias: only subscripts / attributes that are later mutated matter
                 aliases.add(n.targets[0].id)
-        init = memo_guarded(f, model)
+        init = memo_guarded(f, model) if allow_memo else set()
         for what, node in class_state_stores(f, model):
             if id(node) in init:
-                report.sample({'rule': 'C19.R5', 'function': f.construct, 'verdict': 'memoisation',
+                report.sample({'rule': RULE, 'function': f.construct, 'verdict': 'memoisation',
                                'reason': '%s is written once, under a guard that tests that it is not there yet: bounded and idempotent' % what}, 6)
                 continue
-            report.add('C19.R5', '%s@store[%s]' % (f.construct, what),
+            report.add(RULE, '%s@store[%s]' % (f.construct, what),
                        'class level state %s is written on a path that is not the registration API: what a parse costs (or returns) then depends on earlier parses' % what)
         for n in ast.walk(f.node):
             if isinstance(n, ast.Call) and isinstance(n.func, ast.Attribute) and n.func.attr in CLASS_STATE_MUTATORS and \
                     class_rooted(n.func.value, f, model, aliases) and id(n) not in init:
-                report.add('C19.R5', '%s@mutate[%s]' % (f.construct, ast.unparse(n.func)),
+                report.add(RULE, '%s@mutate[%s]' % (f.construct, ast.unparse(n.func)),
                            'a container reached through class level state is mutated (%s): it grows or changes from one parse to the next' % ast.unparse(n)[:70])
 
 
